@@ -226,6 +226,9 @@ const STRINGS_AB: &[u8] = &[2, b'a', b'b', 1, 1];
 // "short": 0..=3 arbitrary bytes (every truncation / end-of-column case)
 t2_col!(t2_col_client_full, 1, 6, 6, 2, 12, NO_AUX, &[], |d| d.read_client().is_ok());
 t2_col!(t2_col_client_short, 1, 0, 3, 3, 12, NO_AUX, &[], |d| d.read_client().is_ok());
+// 9-byte columns: room for a value above 53 bits (client id range check)
+t2_col!(t2_col_client_full9, 1, 9, 9, 1, 14, NO_AUX, &[], |d| d.read_client().is_ok());
+t2_col!(t2_col_left_id_client9, 1, 9, 9, 1, 14, 2, &[2], |d| d.read_left_id().is_ok());
 t2_col!(t2_col_left_clock_full, 2, 6, 6, 2, 12, 1, CLIENT_RUN, |d| d.read_left_id().is_ok());
 t2_col!(t2_col_left_clock_short, 2, 0, 3, 3, 12, 1, CLIENT_RUN, |d| d.read_left_id().is_ok());
 t2_col!(t2_col_right_clock_full, 3, 6, 6, 2, 12, 1, CLIENT_RUN, |d| d.read_right_id().is_ok());
@@ -765,6 +768,33 @@ fn t6_sticky<const N: usize>(tag: u8) {
     }
     kani::cover!(true, "reach");
 }
+/// Full-length variant: scope tag + every 10-byte string (room for a 53-bit-overflowing client id).
+fn t6_sticky_full(tag: u8) {
+    let buf: [u8; 10] = kani::any();
+    let mut full = [0u8; 11];
+    full[0] = tag;
+    let mut i = 0;
+    while i < 10 {
+        full[i + 1] = buf[i];
+        i += 1;
+    }
+    let r = yrs::StickyIndex::decode_v1(&full[..11]);
+    kani::cover!(r.is_ok(), "decoded");
+    kani::cover!(r.is_err(), "err");
+    kani::cover!(true, "reach");
+    std::mem::forget(r);
+}
+#[kani::proof]
+#[kani::unwind(13)]
+fn t6_sticky_relative_full() {
+    t6_sticky_full(0)
+}
+#[kani::proof]
+#[kani::unwind(13)]
+fn t6_sticky_nested_full() {
+    t6_sticky_full(2)
+}
+
 #[kani::proof]
 #[kani::unwind(12)]
 #[kani::stub(std::str::from_utf8, from_utf8_model)]
@@ -876,7 +906,7 @@ macro_rules! t7_cap {
         }
     };
 }
-t7_cap!(t7_state_vector_v1, 6, |b| {
+t7_cap!(t7_state_vector_v1, 10, |b| {
     let r = yrs::StateVector::decode_v1(b);
     let ok = r.is_ok();
     std::mem::forget(r);
